@@ -8,6 +8,7 @@ repository B.  Recording wrappers on both repositories' object-level entry
 points show what the server saw.
 """
 import copy
+import datetime
 import random
 import warnings
 
@@ -65,7 +66,7 @@ REACH = ['pywbem._tupleparse:TupleParser.parse_imethodcall',
 
 def plan(tier):
     if tier == 'quick':
-        return dict(cases=160, time_s=75, case_cpu_s=120)
+        return dict(cases=400, time_s=150, case_cpu_s=120)
     return dict(cases=12000, time_s=540, case_cpu_s=240)
 
 
@@ -223,7 +224,8 @@ def seen_fp(call):
             # PARAMVALUE carries
             items.append((k.lower(), ('param', v.type, bool(v.is_array)
                                       if v.value is not None else None,
-                                      fp(v.value, wire=True))))
+                                      fp(v.value, wire=True,
+                                         char16_as_str=True))))
             continue
         if isinstance(v, tuple):
             v = list(v)
@@ -246,8 +248,10 @@ def result_fp(res):
     if isinstance(res, tuple) and len(res) == 2 and \
             hasattr(res[1], 'items') and not isinstance(res[1], CIMClass):
         rv, out = res
-        return ('invoke', fp(rv, wire=True),
-                tuple(sorted((k.lower(), fp(v, wire=True, ignore_host=True))
+        # a char16 return value or output parameter may be a str or a Char16
+        return ('invoke', fp(rv, wire=True, char16_as_str=True),
+                tuple(sorted((k.lower(), fp(v, wire=True, ignore_host=True,
+                                            char16_as_str=True))
                              for k, v in out.items())))
     return fp(res, wire=True, ignore_host=True)
 
@@ -284,6 +288,21 @@ def dump(fconn):
                       key=sort_key)
         out.append((ns.lower(), tuple(cls), tuple(inst), tuple(qual)))
     return tuple(out)
+
+
+def clone(x):
+    """Deep copy of generated arguments.  Python datetime objects are
+    immutable and are shared (their MinutesFromUTC tzinfo cannot be copied by
+    the copy module); CIM objects never hold them."""
+    if isinstance(x, (datetime.datetime, datetime.timedelta)):
+        return x
+    if type(x) is list:
+        return [clone(i) for i in x]
+    if type(x) is tuple:
+        return tuple(clone(i) for i in x)
+    if type(x) is dict:
+        return {k: clone(v) for k, v in x.items()}
+    return copy.deepcopy(x)
 
 
 def call(conn, op, args, kw):
@@ -370,14 +389,19 @@ def run_case(ctx, i, rng):
             if opn != 'ExportIndication':
                 break
             op = None
-        argsX, argsD = args, args
+        # each side gets its own copy of the caller's objects, so that what an
+        # operation does to them can be compared as well
+        argsX, argsD = clone(args), clone(args)
+        kwX, kwD = clone(kw), clone(kw)
+        real_ctx = False
         if opn in ('PullInstancesWithPath', 'PullInstancePaths',
                    'PullInstances', 'CloseEnumeration'):
             kind = opn if opn != 'CloseEnumeration' else (
                 rng.choice(pullable) if pullable else None)
             if kind and ctxX.get(kind) and ctxD.get(kind):
-                argsX = (ctxX[kind],) + tuple(args[1:])
-                argsD = (ctxD[kind],) + tuple(args[1:])
+                argsX = (ctxX[kind],) + tuple(argsX[1:])
+                argsD = (ctxD[kind],) + tuple(argsD[1:])
+                real_ctx = True
                 if opn == 'CloseEnumeration':
                     ctxX[kind] = ctxD[kind] = None
         ctx.evaluated()
@@ -386,9 +410,24 @@ def run_case(ctx, i, rng):
         detail = {'step': step, 'call': desc, 'default_namespace': dn,
                   'recipe': recipe}
         nreq = len(adapter.requests)
-        rx = call(X, opn, argsX, kw)
-        rd = call(B, opn, argsD, kw)
+        rx = call(X, opn, argsX, kwX)
+        rd = call(B, opn, argsD, kwD)
         seenA, seenB = recA.take(), recB.take()
+        # ---- (0) what became of the caller's own objects -----------------
+        skip = 1 if opn.startswith('Pull') or opn == 'CloseEnumeration' else 0
+        afterX = repr((argsX[skip:], sorted(kwX.items())))
+        afterD = repr((argsD[skip:], sorted(kwD.items())))
+        ctx.count('caller-objects-compared')
+        if afterX != afterD:
+            before = repr((tuple(args)[skip:], sorted(kw.items())))
+            ctx.violation(
+                'caller-objects.%s.%s' % (
+                    opn, 'changed-over-http' if afterX != before else
+                    'changed-directly'),
+                '%s left the caller\'s argument objects in different states: '
+                'over HTTP %s, directly %s (before the call: %s)'
+                % (opn, short(afterX, 400), short(afterD, 400),
+                   short(before, 400)), detail)
         if len(adapter.requests) > nreq:
             detail['request'] = short(
                 (adapter.requests[-1].body or b'').decode('utf-8', 'replace'),
@@ -504,7 +543,7 @@ def run_case(ctx, i, rng):
                         'OpenAssociatorInstancePaths': 'PullInstancePaths',
                         'OpenReferenceInstancePaths': 'PullInstancePaths',
                         'OpenQueryInstances': 'PullInstances'}.get(opn, opn)
-                if not opn.startswith('Pull') or argsX is not args:
+                if not opn.startswith('Pull') or real_ctx:
                     ctxX[kind] = None if vx.eos else vx.context
                     ctxD[kind] = None if vd.eos else vd.context
             try:
